@@ -198,16 +198,16 @@ def js_runtime_call_rules(ck, rule, facts):
                     a = a.strip()
                     return "{%s}" % a.split(".")[-1] if re.fullmatch(r"[\w.&*]+", a) else "{?}"
                 lit = re.sub(r"\{\}", repl, lit.replace("{{", "\x01").replace("}}", "\x02")).replace("\x01", "{").replace("\x02", "}")
-                texts.append((lit, C.loc(f, x.get("ln"))))
+                texts.append((lit, C.loc(f, x.get("ln")), f))
             elif x.get("k") == "lit" and x.get("t") == "str" and "diplomatRuntime." in str(x.get("v")):
-                texts.append((x["v"], C.loc(f, x.get("ln"))))
+                texts.append((x["v"], C.loc(f, x.get("ln")), f))
     import glob as _g
     import os as _os
     for path in sorted(_g.glob(_os.path.join(C.REPO, "tool/templates/js/*.jinja"))):
         rel = "js/" + _os.path.basename(path)
-        texts.append((re.sub(r"⟦\s*([\w.]+)\s*⟧", lambda mm: "{%s}" % mm.group(1).split(".")[-1], tmpl.flat_file(rel, resolve_includes=False)), "tool/templates/" + rel))
+        texts.append((re.sub(r"⟦\s*([\w.]+)\s*⟧", lambda mm: "{%s}" % mm.group(1).split(".")[-1], tmpl.flat_file(rel, resolve_includes=False)), "tool/templates/" + rel, None))
     ncall = 0
-    for lit, where in texts:
+    for lit, where, fctx in texts:
         for cm in re.finditer(r"(new\s+)?diplomatRuntime\.(\w+)(?:\.(\w+))?\s*\(", lit):
             name = ("new " + cm.group(2)) if cm.group(1) else (cm.group(2) + ("." + cm.group(3) if cm.group(3) else ""))
             if name not in sigs:
@@ -225,6 +225,13 @@ def js_runtime_call_rules(ck, rule, facts):
                 mm = re.fullmatch(r"\{(\w+)\}", a)
                 if mm and mm.group(1) in params and i < len(params) and params[i] != mm.group(1) and params[i] in [re.fullmatch(r"\{(\w+)\}", b).group(1) for b in args if re.fullmatch(r"\{(\w+)\}", b)]:
                     problems.append("`%s` is passed where the runtime expects `%s`" % (mm.group(1), params[i]))
+                # whatever the local is called: a value taken from a Layout and passed as the runtime's `size` (`align`) is the layout's size (align)
+                if mm and fctx is not None and i < len(params) and params[i] in ("size", "align"):
+                    for ls in C.walk(C.fn_body(fctx)):
+                        if ls.get("k") == "letst" and isinstance(ls.get("pat"), dict) and ls["pat"].get("k") == "bind" and ls["pat"].get("n") == mm.group(1) and ls.get("init") is not None:
+                            i0 = C.strip(ls["init"])
+                            if i0.get("k") == "mcall" and i0.get("m") in ("size", "align") and "Layout" in (i0.get("rty") or i0.get("p") or "") and i0["m"] != params[i]:
+                                problems.append("`%s` holds the layout's %s but is passed as the runtime's `%s`" % (mm.group(1), i0["m"], params[i]))
             key = "js-call/%s@%s" % (name, re.sub(r"\W+", "_", where.split(":")[0].split("/")[-1]))
             key += "#%d" % sum(1 for i in ck.instances if i["rule"] == rule and i["key"].startswith(key))
             ck.expect(not problems, rule, key, "(%s)" % ", ".join(args)[:80], "call `diplomatRuntime.%s(%s)` vs runtime signature (%s): %s" % (name.replace("new ", ""), ", ".join(args)[:120], ", ".join(params), "; ".join(problems)), where)
@@ -690,6 +697,21 @@ def run(ck, facts):
     if nsa < 4:
         ck.bad("R8", "size-align-lets/floor", "only %d `let size/align = layout.size()/align()` bindings found in the JS backend" % nsa)
     struct_outstruct_symmetry(ck, "R9", facts, {"js"})
+    # an optional field is a {payload, is_ok} record, not its payload: the predicates that classify a type for the ABI (bool-valued matches over hir::Type, e.g. "is this struct
+    # just a wrapped primitive, passed as a scalar") look at the type itself, never at `unwrap_option()` of it
+    ncls = 0
+    for f2 in tool.fn_list:
+        if "hir" not in f2 or not f2["path"].startswith("diplomat_tool::js::") or f2.get("exp"):
+            continue
+        for n in C.walk(C.fn_body(f2)):
+            if n.get("k") == "match" and (n.get("sadt") or "").endswith("hir::types::Type") and any(C.strip(a_["b"]).get("k") == "lit" and C.strip(a_["b"]).get("t") == "bool" for a_ in n["arms"]):
+                ncls += 1
+                peeled = [x.get("m") for x in C.walk(n["s"]) if x.get("k") == "mcall" and x.get("m") in ("unwrap_option", "unwrap_or_inner", "inner")]
+                ck.expect(not peeled, "R9", "js::%s/classifies-the-type-itself#%d" % (f2["name"], sum(1 for i in ck.instances if i["rule"] == "R9" and i["key"].startswith("js::%s/classifies" % f2["name"]))), "",
+                          "%s classifies `%s()` of a type instead of the type: a struct whose only field is an Option<primitive> is taken for a wrapped primitive and passed / returned as a bare scalar, "
+                          "without its is_ok flag and without the receive buffer" % (f2["name"], peeled[0] if peeled else ""), C.loc(f2, n.get("ln")))
+    if ncls < 1:
+        ck.bad("R9", "js/classification-floor", "no bool-valued match over hir::Type found in the JS backend (1 counted: only_primitive)")
     # producer / consumer of the lifetime append-array map: a method whose output does not borrow from a struct argument passes an empty map (`{}`), so every
     # spread of a map entry in the code that writes the struct (`...appendArrayMap['aAppendArray']`) must tolerate a missing entry -- under js.abi = spec every
     # struct argument is written through that code, and a bare spread of `undefined` throws before a byte is written
